@@ -81,7 +81,8 @@ def run_mem(case):
                         retried.append((m.id, a))
                         late_ = bool(env.world.fault_fired) or cf.link is None
                         cf.mem.write(m, a, b'\x07\x08')
-                        issued.append({'op': 'write', 'mem': m.id, 'addr': a, 'len': 2, 'data': b'\x07\x08', 'accepted': True, 'maybe_superseded': late_})
+                        issued.append({'op': 'write', 'mem': m.id, 'addr': a, 'len': 2, 'data': b'\x07\x08', 'accepted': True, 'unordered': True,
+                                       'maybe_superseded': late_ or any(o_.get('flush') for o_ in case['ops'])})
                 cf.mem.mem_write_failed_cb.add_callback(retry)
 
                 def retry_read(m, a, d):
@@ -106,7 +107,8 @@ def run_mem(case):
                         data = _data(ln_, 9)
                         cf.mem.write(m, a2, data)
                         out.feat('write-from-completion-notification')
-                        issued.append({'op': 'write', 'mem': m.id, 'addr': a2, 'len': ln_, 'data': data, 'accepted': True, 'maybe_superseded': False})
+                        issued.append({'op': 'write', 'mem': m.id, 'addr': a2, 'len': ln_, 'data': data, 'accepted': True, 'unordered': True,
+                                       'maybe_superseded': any(o_.get('flush') for o_ in case['ops'])})
                 cf.mem.mem_write_cb.add_callback(chain)
         chained = []
         retried = []
@@ -339,7 +341,9 @@ def run_mem(case):
             if mid in ambiguous_mems:
                 continue
             ws = [i for i in issued if i['op'] == 'write' and i['mem'] == mid and i['accepted']]
-            amb = any(i.get('ambiguous') or i.get('maybe_superseded') for i in ws)
+            # (a write made from inside a notification is concurrent with what the application thread submits at that moment: its place
+            # in the queue relative to those is not determined)
+            amb = any(i.get('ambiguous') or i.get('maybe_superseded') or i.get('unordered') for i in ws)
             order = [n[2] for n in notes if n[0].startswith('write') and n[1] == mid]
             if not dropped and not amb and [w['addr'] for w in ws] != order:
                 out.fail('mem:write-order', '%s: memory %d writes completed in order %r, submitted %r' % (desc, mid, order, [w['addr'] for w in ws]))
@@ -351,6 +355,11 @@ def run_mem(case):
                         uncertain[mid].discard(x)
                 else:
                     uncertain[mid].update(rng)
+            for u in ws:
+                if u.get('unordered'):
+                    for w in ws:
+                        if w is not u:
+                            uncertain[mid].update(set(range(u['addr'], u['addr'] + u['len'])) & set(range(w['addr'], w['addr'] + w['len'])))
             m = dev.mem.mems[mid]
             touched = set(written[mid]) | uncertain[mid]
             if m.sparse:
